@@ -39,17 +39,19 @@ thread_local! {
 /// flat directory; 1 puts the imported modules side by side in a sub-directory; 2 and 3
 /// give the same file name to modules of different directories, so that the same relative
 /// spelling denotes different files depending on the importing module.
-const LAYOUTS: [[&str; 4]; 4] = [
+const LAYOUTS: [[&str; 4]; 5] = [
     ["m1.oal", "m2.oal", "m3.oal", "m4.oal"],
     ["a/m1.oal", "a/m2.oal", "a/m3.oal", "a/m4.oal"],
     ["a/m.oal", "m.oal", "a/b/m.oal", "b/m.oal"],
     ["a/m1.oal", "m2.oal", "a/m2.oal", "m1.oal"],
+    ["M1.oal", "m1.oal", "a/M1.oal", "a/m1.oal"],
 ];
-const LAYOUT_NAMES: [&str; 4] = [
+const LAYOUT_NAMES: [&str; 5] = [
     "one directory",
     "imported modules in a sub-directory",
     "the same file name in several directories",
     "two pairs of equally named files in two directories",
+    "file names that differ only by the case of a letter",
 ];
 
 fn set_layout(l: usize) {
@@ -1100,6 +1102,7 @@ impl Engine for C10 {
                 laid(2, 2, "full", 3),
                 laid(3, 1, "reduced", 3),
                 laid(3, 2, "reduced", 3),
+                laid(3, 4, "reduced", 3),
             ],
             Tier::Thorough => vec![
                 full(1),
@@ -1115,6 +1118,8 @@ impl Engine for C10 {
                 laid(3, 2, "full", 3),
                 laid(4, 2, "separate", 2),
                 laid(4, 3, "separate", 2),
+                laid(3, 4, "full", 3),
+                laid(4, 4, "separate", 2),
             ],
         }
     }
@@ -1231,7 +1236,7 @@ impl Engine for C10 {
         vec![
             "when a missing import and an import cycle are both reachable the statement asks for both reports and load returns one error: either class is accepted, but it must be the same class for every use order and spelling of that graph".into(),
             "is_valid calls are recorded and counted as transitions but their number is not judged (the statement speaks of load, parse and compile only)".into(),
-            "four directory layouts of at most depth 2; alternative spellings prefix the relative path with ./ or d/../ (no symbolic links, no case folding, no percent-encoding, no absolute paths or URLs)".into(),
+            "four directory layouts of at most depth 2; alternative spellings prefix the relative path with ./ or d/../ (one layout has file names that differ only by case; no symbolic links, no percent-encoding, no absolute paths or URLs)".into(),
             "at most one duplicate use and one missing import per configuration; spellings are varied one edge at a time or all together".into(),
         ]
     }
